@@ -302,9 +302,14 @@ def run_task(task):
         reqs = list(prop.requests(cfg, rng, task['n'], task['tier'], task['part'], task['nparts'], st))
         if not reqs:
             return st
-        lines = [encode_req(prop, cfg, g, a) for g, a in reqs]
-        text = '\n'.join(lines) + '\n'
+        all_reqs = reqs
+        mode_filter = getattr(prop, 'mode_filter', None)
         for mode, binpath in task['bins'].items():
+            reqs = [r for r in all_reqs if mode_filter(cfg, r[0], mode)] if mode_filter else all_reqs
+            if not reqs:
+                continue
+            lines = [encode_req(prop, cfg, g, a) for g, a in reqs]
+            text = '\n'.join(lines) + '\n'
             timeout = task.get('timeout', 600)
             try:
                 hdr, resp = run_driver(binpath, text, timeout, task.get('argv_prefix', ()), task.get('env'))
